@@ -262,7 +262,7 @@ impl Prop for C06P {
         ];
         p.floor_evaluations = 8_000;
         p.floor_nontrivial = 4_000;
-        p.case_timeout_s = 4;
+        p.case_timeout_s = 8;
         p
     }
     fn run_case(&self, ctx: &mut Ctx, section: &str, idx: u64) {
